@@ -23,6 +23,7 @@ func runC02(p *core.Prog, r *core.Result) {
 		"R2.5 the current environment of a function (functionEnv) is not computed from anything reachable from loadFunction: it is taken only after every module has finished executing, so it is complete",
 		"R2.8 what a function's stamp is computed from is fixed when loading ends: a host value whose contents are written while targets run (a cache) is neither pickled by content by the encoder nor read by the host pickler - otherwise the stamp recorded by one build differs from the one the next, unchanged, build computes before anything ran (shared with C08 R8.8)",
 		"R2.9 dawn's own records are nobody's input: every function of package dawn that lists project directories on behalf of a build decision (package loading, glob(), the content sum of a source directory) branches on a comparison that names the state directory (a string constant containing .dawn, or a value that flows from Project.work) - the records under .dawn/build are rewritten by every build, so a listing that covers them is different on every load (the collector, which walks the state directory itself, is the one exception)",
+		"R2.10 a garbage collection between two builds keeps what the next load compares with: GC marks the record of every entry of Project.targets - sources as well as targets - under the path records are read from, with all its parents (the marking obligations of C14: R14.1, R14.2, R14.3); a collected record makes an unchanged source look changed and everything above it rebuild",
 		"R2.4 both sides of the environment comparison are produced by the same decoder/unpickler, and the persisted stamp by the same pickler as the current one",
 	}
 	r.NotDecided = []string{"that unrelated edits (comments, whitespace, other packages) leave the compiled bytecode and constants of a function unchanged (a property of the Starlark compiler)", "behaviour across process restarts and load interleavings as observed"}
@@ -33,6 +34,33 @@ func runC02(p *core.Prog, r *core.Result) {
 
 	// ---- R2.2
 	checkSourceCompare(p, r, "R2.2")
+
+	// ---- R2.10 GC keeps the records the next load compares with (the marking rules of C14)
+	{
+		sub := core.NewResult("C14")
+		runC14(p, sub)
+		n := 0
+		for _, o := range sub.Obls {
+			if o.Rule != "R14.0" && o.Rule != "R14.1" && o.Rule != "R14.2" && o.Rule != "R14.3" {
+				continue
+			}
+			if strings.HasPrefix(o.Construct, "floor:") || strings.HasPrefix(o.Construct, "rule#") {
+				continue
+			}
+			n++
+			switch o.Status {
+			case core.Discharged:
+				r.OK("R2.10", o.Construct, o.Pos, "%s", o.Detail)
+			case core.Violated:
+				r.Bad("R2.10", o.Construct, o.Pos, "%s", o.Detail)
+			default:
+				if o.Status == core.Undecided {
+					r.Unk("R2.10", o.Construct, o.Pos, "%s", o.Detail)
+				}
+			}
+		}
+		r.Floor("R2.10", n, 3, "marking obligations of the collector")
+	}
 
 	// ---- R2.9 the state directory is left out of every listing
 	checkStateDirExcluded(p, r, "R2.9")
